@@ -15,6 +15,7 @@ package c14
 import (
 	"bytes"
 	"context"
+	"errors"
 	"fmt"
 	"os"
 	"sort"
@@ -217,7 +218,7 @@ func prefix(v1 bool) cid.Prefix {
 	return cid.Prefix{Version: 0, Codec: cid.DagProtobuf, MhType: mh.SHA2_256, MhLength: -1}
 }
 
-func build(ctx context.Context, ds format.DAGService, x T, dirV1 bool, top bool) (*merkledag.ProtoNode, error) {
+func build(ctx context.Context, ds format.DAGService, x T, dirV1 bool, all map[cid.Cid]bool) (*merkledag.ProtoNode, error) {
 	var n *merkledag.ProtoNode
 	if !x.Dir {
 		d := x.Data
@@ -239,7 +240,7 @@ func build(ctx context.Context, ds format.DAGService, x T, dirV1 bool, top bool)
 				return nil, fmt.Errorf("harness: bad entry name %q", k.Name)
 			}
 			seen[k.Name] = true
-			ch, err := build(ctx, ds, k, dirV1, false)
+			ch, err := build(ctx, ds, k, dirV1, all)
 			if err != nil {
 				return nil, err
 			}
@@ -251,6 +252,7 @@ func build(ctx context.Context, ds format.DAGService, x T, dirV1 bool, top bool)
 	if err := ds.Add(ctx, n); err != nil {
 		return nil, err
 	}
+	all[n.Cid()] = true
 	return n, nil
 }
 
@@ -357,11 +359,12 @@ func run(c Case) kit.Result {
 	}
 	ctx := context.Background()
 	ds := dagutils.NewMemoryDagService()
-	an, err := build(ctx, ds, c.A, c.DirV1, true)
+	treeCids := map[cid.Cid]bool{} // every block of a and of b
+	an, err := build(ctx, ds, c.A, c.DirV1, treeCids)
 	if err != nil {
 		return kit.Fail("%v", err)
 	}
-	bn, err := build(ctx, ds, c.B, c.DirV1, true)
+	bn, err := build(ctx, ds, c.B, c.DirV1, treeCids)
 	if err != nil {
 		return kit.Fail("%v", err)
 	}
@@ -383,6 +386,7 @@ func run(c Case) kit.Result {
 	d := &delta{depths: map[int]bool{}, kinds: map[string]bool{}}
 	compare(normalise(c.A, c.DirV1), normalise(c.B, c.DirV1), "", 0, d)
 
+	known := ""
 	check := func() error {
 		for _, x := range []*merkledag.ProtoNode{a, b} {
 			self, err := dagutils.Diff(ctx, ds, x, x)
@@ -408,6 +412,13 @@ func run(c Case) kit.Result {
 		}
 		res, err := dagutils.ApplyChange(ctx, ds, src, changes)
 		if err != nil {
+			var nf format.ErrNotFound
+			if errors.As(err, &nf) && nf.Cid.Defined() && !treeCids[nf.Cid] {
+				// The editor lost an intermediate node of its own: after each step it deletes the
+				// old version of the modified node from its temporary store, although a block with
+				// that CID can still be referenced elsewhere in the edited tree (self-similar trees).
+				known = "EDITOR-DROPS-SHARED"
+			}
 			return fmt.Errorf("ApplyChange(a, Diff(a, b)) failed: %v; changes %s", err, describe(changes))
 		}
 		if !res.Cid().Equals(b.Cid()) {
@@ -420,7 +431,13 @@ func run(c Case) kit.Result {
 		return nil
 	}
 	if err := check(); err != nil {
-		if d.typeChange && os.Getenv("C14_NO_EXCLUSIONS") == "" { // (env: development aid to validate the proposed fix)
+		if os.Getenv("C14_NO_EXCLUSIONS") != "" { // development aid to validate proposed fixes
+			return kit.Result{Err: err}
+		}
+		if known != "" {
+			return kit.Result{Err: err, Known: known}
+		}
+		if d.typeChange {
 			// §7-F7: Diff never compares Data, so a file <-> non-empty-directory replacement is
 			// reported as link additions/removals below a node that keeps the old Data.
 			return kit.Result{Err: err, Known: "F7"}
@@ -445,7 +462,7 @@ func run(c Case) kit.Result {
 var spec = kit.Spec[Case]{
 	Prop: "C14", Name: "main",
 	Rule:  "random dag-pb directory tree a (depth <=4, fan-out <=6, <=30 entries; thorough <=60) and b derived by 0..6 random edits (add subtree/file, remove, replace file, replace subtree, empty-dir swaps; in 1/6 of the cases also file<->non-empty-directory); non-trivial = the trees differ at >=2 paths lying at >=2 different depths",
-	Quick: 6000, Thorough: 50000,
+	Quick: 6000, Thorough: 30000,
 	Gen: gen, Run: run,
 }
 
